@@ -248,6 +248,10 @@ type OpGen struct {
 	P      *Profile
 	nextID int
 	ws     []int
+	// set around genPlan: the model (sequential engines only) and whether this operation kind may
+	// get a loader that takes simulated time
+	curModel *Model
+	advOK    bool
 }
 
 func NewOpGen(r *simrt.Rng, cfg *Cfg, p *Profile) *OpGen {
@@ -295,6 +299,9 @@ func (g *OpGen) genPlan(bulk bool, keys []int, allowPanic bool) *LoadPlan {
 		if allowPanic && !g.P.NoPanic {
 			p.Kind = "panic"
 		}
+	}
+	if g.curModel != nil && g.advOK && (g.Cfg.withExpiry() || g.Cfg.withRefresh()) && r.Intn(4) == 0 {
+		p.Adv = g.genAdvance(g.curModel) // the load takes (simulated) time
 	}
 	if bulk && p.Kind == "val" {
 		for _, k := range keys {
@@ -378,9 +385,11 @@ func (g *OpGen) Next(m *Model) Op {
 		}
 	case "load":
 		op.K, op.V = g.pickKey(m), g.newBase()
+		g.curModel, g.advOK = m, true
 		op.Load = g.genPlan(false, nil, true)
 	case "refresh":
 		op.K, op.V = g.pickKey(m), g.newBase()
+		g.curModel, g.advOK = m, true
 		op.Load = g.genPlan(false, nil, false)
 	case "bulkget", "bulkrefresh":
 		n := 1 + r.Intn(5)
@@ -398,6 +407,7 @@ func (g *OpGen) Next(m *Model) Op {
 			op.Ks = nil
 		}
 		op.V = g.newBase()
+		g.curModel, g.advOK = m, kind == "bulkget" // BulkRefresh may call the loader twice in an unspecified order
 		op.Load = g.genPlan(true, op.Ks, kind == "bulkget")
 	case "setmax":
 		switch r.Intn(5) {
